@@ -465,7 +465,8 @@ def run(ck):
             yield ("random", tree, init)
 
     nontriv = set()
-    dist = {"kinds": {}, "model_outcomes": {}, "constructs": {}, "depth": {}, "instructions": {}, "trace_len": {}}
+    dist = {"kinds": {}, "model_outcomes": {}, "constructs": {}, "depth": {}, "instructions": {}, "trace_len": {},
+            "repetition": {}, "cached_blocks": {}}
     samples = []
     counters = {"eval": 0, "found": False}
 
@@ -515,6 +516,13 @@ def run(ck):
                 dist["trace_len"][tl_] = dist["trace_len"].get(tl_, 0) + 1
                 if ncon >= 1:
                     nontriv.add((text, tuple(init)))
+                tags = [e.split(",")[0] for e in tr[2:].split(";")] if tr != "T:" else []
+                reps = max([tags.count(t) for t in set(tags)] or [0])
+                key = "a block ran %s" % ("0 times (no emit)" if reps == 0 else "once at most" if reps == 1 else
+                                           "2-3 times" if reps <= 3 else "4+ times")
+                dist["repetition"][key] = dist["repetition"].get(key, 0) + 1
+                ncache = sum(1 for part in model.split("|")[3:6] for x in part.split(":", 1)[1].split(",") if x)
+                dist["cached_blocks"][min(ncache, 10)] = dist["cached_blocks"].get(min(ncache, 10), 0) + 1
             bad = judge(wf, spec, model, io)
             if bad and len(ck.violations) < 5 and kind in ("random", "skeleton"):
                 # shrink: report the smallest program found that still disagrees
@@ -592,6 +600,26 @@ def run(ck):
                                   "initial_variables": mal[k][1], "model(flat machine)": model, "implementation": io,
                                   "theorems": ["(off-domain: model fidelity only)"], "seed": ck.seed,
                                   "replay_cmd": "printf 'R\\t%s\\t%s\\n' | .cache/cargo-target/release/c04" % (text, enc_list(mal[k][1]))})
+    # stage D: deep-junk probe (finding KF-C04-1: pop_call_info_for_line recurses once per stale entry,
+    # so a long loop inside an if-with-else overflows the Rust stack at the else line).  Implementation
+    # only, expectation known by construction; run only once the finding is registered: tolerated
+    # while it is open, required to pass once it is recorded as fixed.
+    kf = [k for k in ck.known_db if k.get("property") == "C04" and k.get("id") == "KF-C04-1"]
+    probe = "not run (KF-C04-1 not registered in known_findings.json)"
+    if kf and not counters["found"]:
+        n_it = 60000
+        script = ["r = range 0 %d" % n_it, "if true", "for i in ${r}", "if true", "end", "end", "else", "emit no", "end", "emit done"]
+        out = ck.impl(["R\t%s\t-" % enc_list(script)], timeout=600)[0]
+        good = out.startswith("OK|T:%s|" % E("done"))
+        probe = "ran: %s" % (out[:40])
+        if not good:
+            if str(kf[0].get("status", "")).startswith("open"):
+                ck.known("KF-C04-1 a %d-iteration loop inside an if-with-else aborts at the else line (%s)" % (n_it, out[:30]))
+            else:
+                counters["found"] = True
+                ck.violation({"kind": "deep-junk probe: the structured semantics runs to the end (trace: done)",
+                              "script": script, "implementation": out, "finding": "KF-C04-1", "seed": ck.seed,
+                              "replay_cmd": "printf 'R\\t%s\\t-\\n' | .cache/cargo-target/release/c04" % enc_list(script)})
     found = counters["found"]
     n_eval = counters["eval"] + n_mal
 
@@ -610,6 +638,7 @@ def run(ck):
         "samples": samples,
         "distribution": dist,
         "malformed_stream": {"cases": n_mal, "model_outcomes": mal_dist},
+        "deep_junk_probe": probe,
         "spellings": {k: v for k, v in T.items() if k != "wf"},
     })
     ck.report_broken(found)
@@ -620,4 +649,6 @@ def run(ck):
         "the registry lookup name -> command is modelled by membership in the regenerated name tables (checked against the loaded SDK on every run)",
         "values used in ${var} conditions are not command names or condition keywords (generator-restricted)",
         "call stacks are not compared (only the state named in observe_at: trace, variables, cached block tables)",
+        "the model's call stacks and its pops are unbounded lists / structural recursion: the depth of the Rust recursion in "
+        "pop_call_info_for_line (one frame per stale entry) is not modelled (finding KF-C04-1)",
     ]
